@@ -2297,7 +2297,10 @@ static long double eval_flonum(Node *node) {
 // However, if a given expression is of form `A.x op= C`, the input is
 // converted to `tmp = &A, (*tmp).x = (*tmp).x op C` to handle assignments
 // to bitfields.
-static Node *to_assign(Node *binary) {
+//
+// If `yield_old` is set, A is an atomic object and the result is the
+// value that A held before the update (for a postfix ++ or --).
+static Node *op_assign(Node *binary, bool yield_old) {
   add_type(binary->lhs);
   add_type(binary->rhs);
   Token *tok = binary->tok;
@@ -2334,7 +2337,7 @@ static Node *to_assign(Node *binary) {
   //   do {
   //    new = old op val;
   //   } while (!atomic_compare_exchange_strong(addr, &old, new));
-  //   new;
+  //   new;             (or `old`, if yield_old)
   // })
   if (binary->lhs->ty->is_atomic) {
     Node head = {};
@@ -2382,7 +2385,8 @@ static Node *to_assign(Node *binary) {
     loop->cond = new_unary(ND_NOT, cas, tok);
 
     cur = cur->next = loop;
-    cur = cur->next = new_unary(ND_EXPR_STMT, new_var_node(new, tok), tok);
+    cur = cur->next =
+      new_unary(ND_EXPR_STMT, new_var_node(yield_old ? old : new, tok), tok);
 
     Node *node = new_node(ND_STMT_EXPR, tok);
     node->body = head.next;
@@ -2405,6 +2409,10 @@ static Node *to_assign(Node *binary) {
                tok);
 
   return new_binary(ND_COMMA, expr1, expr2, tok);
+}
+
+static Node *to_assign(Node *binary) {
+  return op_assign(binary, false);
 }
 
 // assign    = conditional (assign-op assign)?
@@ -3113,7 +3121,14 @@ static Node *new_inc_dec(Node *node, Token *tok, int addend) {
   // (1 + 1 == 1), so save it: `tmp = &A, old = *tmp, *tmp = old + addend, old`.
   // The same holds for a bit-field, whose new value wraps at its width,
   // and for a floating type when the addition rounds ((x + 1) - 1 != x).
-  if (node->ty->kind == TY_BOOL || is_flonum(node->ty) ||
+  // If A is atomic, the update must be a single read-modify-write: the
+  // compare-exchange loop of `A += addend` yields the value it replaced.
+  bool save_old = (node->ty->kind == TY_BOOL || is_flonum(node->ty));
+
+  if (save_old && node->ty->is_atomic)
+    return op_assign(new_add(node, new_num(addend, tok), tok), true);
+
+  if (save_old ||
       (node->kind == ND_MEMBER && node->member->is_bitfield)) {
     Node *obj = (node->kind == ND_MEMBER) ? node->lhs : node;
     Obj *ptr = new_lvar("", pointer_to(obj->ty));
